@@ -983,59 +983,40 @@ theorem alignDims_spec {α} (arrays rs : List (DimArray α)) (h : alignDims arra
       exact ⟨a, ha, reshape_spec a r _ hab⟩
 
 theorem bcStep_inv {α} (a : DimArray α) {attrs : Attrs} {src : List (String × Attrs)} {o r : DimArray α} (t : Axis)
-    (ho : Inv attrs src o) (ht : ∀ p ∈ metaAll [t], p ∈ src) (h : C10.bcStep a o t = .ok r) : Inv attrs src r := by
+    (ho : Inv attrs src o) (h : C10.bcStep a o t = .ok r) : Inv attrs src r := by
   unfold C10.bcStep at h
   split at h
-  · rename_i ax hfind
-    split at h
-    · obtain ⟨h1, pos, hpos, hlt, h2⟩ := repeatAxis_spec o r t _ h
+  · split at h
+    · obtain ⟨h1, pos, _, _, h2⟩ := repeatAxis_spec o r t.bare _ h
       refine ⟨h1.trans ho.1, ho.2.step ?_⟩
       intro x hx
       rw [h2] at hx
       rcases List.mem_or_eq_of_mem_set hx with hx | rfl
       · exact Or.inl hx
       · right; left
-        -- the replaced axis has the name of the target axis: it is the target axis
-        have hname : (o.axes.getD pos default).name = t.name := by
-          unfold axisPos at hpos
-          simp only at hpos
-          split at hpos
-          · cases hpos
-            rw [axis_getD_mem _ _ hlt]
-            have hlt' : (o.axes.map (·.name)).idxOf t.name < (o.axes.map (·.name)).length := by
-              rw [List.length_map]; exact hlt
-            have := List.getElem_idxOf hlt'
-            rw [List.getElem_map] at this
-            exact this
-          · cases hpos
+        -- the repeated axis is a fresh `Axis(values, name)`: no metadata, no members
         intro p hp
-        right
-        apply ht
-        rw [hname] at hp
-        exact hp
+        left
+        obtain ⟨y, hy, hpy⟩ := mem_metaAll.mp hp
+        rw [List.mem_singleton] at hy
+        subst hy
+        rcases hpy with rfl | ⟨m, hm, _⟩
+        · rfl
+        · exact absurd (show m ∈ [] from hm) List.not_mem_nil
     · cases h; exact ho
   · cases h
 
+/-- `broadcast`: the array's metadata is kept; no foreign axis metadata appears - in particular none of the target's
+(a repeated axis is a fresh axis with the target's labels) -/
 theorem broadcast_spec {α} (a r : DimArray α) (target : List Axis) (h : broadcast a target = .ok r) :
-    r.attrs = a.attrs ∧ ∀ p ∈ metaAll r.axes, p.2 = [] ∨ p ∈ metaAll a.axes ∨ p ∈ metaAll target := by
+    r.attrs = a.attrs ∧ ∀ p ∈ metaAll r.axes, p.2 = [] ∨ p ∈ metaAll a.axes := by
   rw [C10.broadcast_eq] at h
   obtain ⟨o, h1, h2⟩ := bind_ok h
-  have i0 : Inv a.attrs (metaAll a.axes ++ metaAll target) o := by
+  have i0 : Inv a.attrs (metaAll a.axes) o := by
     have := reshape_inv a o _ h1
-    exact ⟨this.1, this.2.mono fun p hp => List.mem_append_left _ hp⟩
-  have := foldlM_inv (Inv a.attrs (metaAll a.axes ++ metaAll target)) (C10.bcStep a) _ _ _ ?_ i0 h2
-  · refine ⟨this.1, fun p hp => ?_⟩
-    rcases this.2 p hp with h | h
-    · exact Or.inl h
-    · exact Or.inr (List.mem_append.mp h)
-  · intro s t s' ht hs hstep
-    refine bcStep_inv a t hs ?_ hstep
-    intro p hp
-    apply List.mem_append_right
-    obtain ⟨x, hx, hpx⟩ := mem_metaAll.mp hp
-    rw [List.mem_singleton] at hx
-    subst hx
-    exact mem_metaAll.mpr ⟨x, List.mem_reverse.mp ht, hpx⟩
+    exact ⟨this.1, this.2⟩
+  exact foldlM_inv (Inv a.attrs (metaAll a.axes)) (C10.bcStep a) _ _ _
+    (fun s t s' _ hs hstep => bcStep_inv a t hs hstep) i0 h2
 
 theorem getAxesAligned_mem (arrays : List (List Axis)) (axes : List Axis) (h : getAxesAligned arrays = .ok axes) :
     ∀ x ∈ axes, ∃ l ∈ arrays, x ∈ l := by
@@ -1867,12 +1848,12 @@ open Lib
 namespace C16
 
 /-- broadcast on plain arrays: an axis of `a` is kept as it is, unless it has a single position and the target
-axis has not - then it is replaced by the target axis (with the target's metadata) -/
+axis has not - then it is replaced by a fresh axis with the target's labels (`t.bare`: without the target's metadata) -/
 theorem broadcast_plain {α} (a r : DimArray α) (hw : a.WF) (hpa : PlainAxes a.axes) (target : List Axis)
     (hpt : PlainAxes target) (hnd : (target.map (·.name)).Nodup) (hpn : ∀ t ∈ target, PlainName t.name)
     (hfit : ∀ ax ∈ a.axes, ax.name ∉ target.map (·.name) → ax.size = 1) (h : broadcast a target = .ok r) :
     (∀ ax' ∈ r.axes, ∃ t ∈ target, ax' = bcastAxis a t) ∧
-    ∀ ax' ∈ r.axes, ∀ ax ∈ a.axes, ax'.name = ax.name → ax' = ax ∨ (ax.size = 1 ∧ ax' ∈ target) := by
+    ∀ ax' ∈ r.axes, ∀ ax ∈ a.axes, ax'.name = ax.name → ax' = ax ∨ (ax.size = 1 ∧ ∃ t ∈ target, ax' = t.bare) := by
   obtain ⟨o, e, hd, hk, _⟩ := C10.broadcast_ok a hw hpa target hpt hnd hpn hfit
   rw [h] at e
   cases e
@@ -1902,7 +1883,7 @@ theorem broadcast_plain {α} (a r : DimArray α) (hw : a.WF) (hpa : PlainAxes a.
       have : ax0 = ax := name_inj hw.2.1 h0 hax (hn0.trans hname)
       subst this
       simp only [hc, if_true]
-      exact Or.inr ⟨hc', ht⟩
+      exact Or.inr ⟨hc', t, ht, rfl⟩
     · rename_i hc
       have : ax0 = ax := name_inj hw.2.1 h0 hax hname
       subst this
